@@ -194,6 +194,7 @@ def run_trading(rnd, S, cfgk, intensity=1.0, script=None, analyser=False, ids=No
         if plan["fut"] is None:
             plan["fut"] = (srnd.choice(futs), srnd.choice(["long", "short"])) if (futs and "FUTURE" in context.portfolio.accounts and srnd.random() < 0.6) else ()
             plan["generic"] = bool(S.get("_plan_generic_close")) and srnd.random() < 0.35
+            plan["ct_twice"] = (not plan["generic"]) and srnd.random() < 0.4
             plan["cash_edge_day"] = srnd.randrange(1, 5) if (stocks and "STOCK" in context.portfolio.accounts and srnd.random() < 0.5) else 0
         if plan["fut"]:
             oid, side = plan["fut"]
@@ -205,6 +206,15 @@ def run_trading(rnd, S, cfgk, intensity=1.0, script=None, analyser=False, ids=No
                 out.append(f1)
             elif day == 2 and plan.get("generic"):
                 pass
+            elif day == 2 and plan.get("ct_twice"):
+                def f2c(call, before, oid=oid, side=side, open_fn=open_fn, close_fn=close_fn):
+                    # yesterday's 2 lots + 3 lots opened now; then close-today 2 lots twice: the second must be cut down to what is left of TODAY's lots
+                    call.update(api="plan_future_close_today_twice", args=(oid, side))
+                    r0 = open_fn(oid, 3)
+                    r1 = close_fn(oid, 2, close_today=True)
+                    r2 = close_fn(oid, 2, close_today=True)
+                    return [r0, r1, r2]
+                out.append(f2c)
             elif day == 2:
                 def f2(call, before, oid=oid, side=side, open_fn=open_fn, close_fn=close_fn):
                     # yesterday's 2 lots + 1 lot opened now; a resting close of 2 lots commits the old part; then close 3: the API splits it
